@@ -249,7 +249,10 @@ def later_rows(run, cut):
     """deltas settling after the date, per security, in order"""
     out = {}
     for s, so in run["secs"].items():
-        out[s] = [d for d in so["deltas"] if d["sd"] > cut]
+        # a split for all affiliates is expanded over the affiliates that have rows: the expansion
+        # row of an affiliate holding nothing (before and after) is not a reported figure
+        out[s] = [d for d in so["deltas"] if d["sd"] > cut
+                  and not (d["act"] == "Split" and d["pre"][0] == 0 and d["post"][0] == 0)]
     return out
 
 
